@@ -2438,6 +2438,41 @@ func (s *swamp) Close() {
 	atomic.StoreInt32(&s.closing, 1)
 	s.closeMutex.Unlock()
 
+	s.finishClose()
+
+}
+
+// closeIfIdle is the idle eviction of the close listener. The decision "nobody has
+// touched the swamp for closeAfterIdle and nobody holds a vigil" and the closing flag
+// are taken in one step under closeMutex, the same mutex under which IsClosing renews
+// the interaction time for a summoner. A request that summons the swamp therefore
+// either renews the time before the decision (the swamp stays open) or sees the
+// closing flag (and waits for the close): it can no longer be handed an instance that
+// the listener, acting on an interaction time it read a moment earlier, is about to
+// close - everything such a request wrote went to an instance that had already
+// flushed for the last time.
+func (s *swamp) closeIfIdle(closeGapDuration time.Duration) {
+
+	s.closeMutex.Lock()
+	if atomic.LoadInt32(&s.closing) == 1 {
+		s.closeMutex.Unlock()
+		return
+	}
+	lastInteractionTime := time.Unix(0, atomic.LoadInt64(&s.lastInteractionTime))
+	if s.Vigil.HasActiveVigils() || !time.Now().After(lastInteractionTime.Add(s.closeAfterIdle+closeGapDuration)) {
+		s.closeMutex.Unlock()
+		return
+	}
+	atomic.StoreInt32(&s.closing, 1)
+	s.closeMutex.Unlock()
+
+	s.finishClose()
+
+}
+
+// finishClose is what Close does once the closing flag is set.
+func (s *swamp) finishClose() {
+
 	// write all treasures to the chroniclerInterface that are waiting for the writer and don't send events to the hydra
 	// because we are closing the swamp and ask the chroniclerInterface to not send file pointers for new files, because,
 	// we are closing the swamp and we don't need to write the file pointers to the treasures
@@ -2570,6 +2605,10 @@ func (s *swamp) Destroy() {
 // azonnal, így biztonsággal kiadható még a BeginVigil() utasítás is, valamint a swampot lekérdező funkciók is
 // biztonsággal használhatóak
 func (s *swamp) IsClosing() bool {
+	// Renewing the interaction time and reading the flag are one step with respect
+	// to the idle eviction (see closeIfIdle).
+	s.closeMutex.Lock()
+	defer s.closeMutex.Unlock()
 	// set the last interaction time to the current time
 	atomic.StoreInt64(&s.lastInteractionTime, time.Now().UnixNano())
 	return atomic.LoadInt32(&s.closing) == 1
@@ -3687,13 +3726,13 @@ func (s *swamp) startCloseListener() {
 				// és ezt kjövetően már be is lehet zárni a swampot
 				if atomic.LoadInt32(&s.inMemorySwamp) == 1 {
 					if !s.Vigil.HasActiveVigils() && atomic.LoadInt32(&s.closing) == 0 && currentTime.After(lastInteractionTime.Add(s.closeAfterIdle+closeGapDuration)) {
-						s.Close()
+						s.closeIfIdle(closeGapDuration)
 					}
 				} else {
 					if atomic.LoadInt32(&s.isFilesystemWritingActive) == 0 && !s.Vigil.HasActiveVigils() && atomic.LoadInt32(&s.closing) == 0 && currentTime.After(lastInteractionTime.Add(s.closeAfterIdle+closeGapDuration)) {
 						// a swampot éppp nem írja senki, nincs aktív tranzakció, nem zárjuk éppen le és megfelelünk annak a követelménynek is, hogy
 						// az utoljára történt interakció óta eltelt idő nagyobb legyen mint a closeAfterIdle, így a swamp leállítható biztonságosan
-						s.Close()
+						s.closeIfIdle(closeGapDuration)
 					}
 				}
 
